@@ -473,7 +473,7 @@ def loki_sets(text, prog, nids):
 CLAUSE_NAMES = {'D': 'defines', 'U': 'uses', 'L': 'live', 'C': 'carried', 'R': 'raw'}
 
 
-def run_cases(ctx, label, cases, entry='kernel', shards=None):
+def run_cases(ctx, label, cases, entry='kernel', shards=None, timeout=2400):
     """cases: [(prog, inputs)].  gfortran(original) -> observed output (pre-flight), Loki sets, TLC judgement.
     Returns list of dicts per (program, input): idx, k, verdict tuple, misses [(clause, node, var, leaf, aux)],
     plus per-program info (text, sets, node classes)."""
@@ -498,8 +498,8 @@ def run_cases(ctx, label, cases, entry='kernel', shards=None):
             continue
         nids = max([u['bid'] for u in prog['units']] + [i for u in prog['units'] for s in flat(u['body']) for i in [s['id']] + s.get('eids', [])])
         p['sets'], p['classes'] = loki_sets(p['text'], prog, nids)      # serial: Loki is not thread-safe
-        plain = not has_where(prog)
         for k, inp in enumerate(inputs):
+            plain = k == 0 and not has_where(prog)      # cross-check with the un-instrumented FMachine once per program
             obs = p['orig'][1][k]
             if obs is None:
                 continue
@@ -508,8 +508,7 @@ def run_cases(ctx, label, cases, entry='kernel', shards=None):
     if stats['orig_failed'] > max(1, len(cases) // 20):
         ex = ctx.cover['orig_failed_examples'][0]
         raise MachineryError(f"{stats['orig_failed']} of {len(cases)} generated programs do not build/run with gfortran, e.g. {ex['why']}\n{ex['program']}")
-    verd = ctx.validate('Trace_Dataflow', 'Trace_Dataflow', tcases, timeout=2400, per_shard_min=6, shards=shards,
-                        extra_env={'JAVA_TOOL_OPTIONS': '-Xss64m'}) if tcases else {}
+    verd = ctx.validate('Trace_Dataflow', 'Trace_Dataflow', tcases, timeout=timeout, per_shard_min=8, shards=shards) if tcases else {}
     runs = []
     for i, (idx, k) in enumerate(tmeta):
         v = verd[i]
@@ -601,16 +600,31 @@ class Index:
         return any(d['name'] == name and d['dims'] for d in u['decls'])
 
     def call_intent(self, i, var):
-        """Intent(s) of the dummies the variable `var` is associated with in the call statement i."""
+        """Intent(s) of the dummies whose actual argument in the call statement i mentions `var`
+        (suffix -expr when the actual is an expression and not the variable / an element of it)."""
         s = self.info[i]['s']
         cal = next((u for u in self.prog['units'] if u['name'] == s['name']), None)
         if cal is None:
             return 'unknown'
         ints = set()
         for a, dn in zip(s['args'], cal['args']):
-            if a.get('name') == var and a['k'] in ('var', 'arr'):
-                ints.add(next(d['intent'] for d in cal['decls'] if d['name'] == dn))
-        return '+'.join(sorted(ints)) or 'expr'
+            if var in expr_vars(a):
+                it = next(d['intent'] for d in cal['decls'] if d['name'] == dn)
+                ints.add(it if a['k'] in ('var', 'arr') and a.get('name') == var else it + '-expr')
+        return '+'.join(sorted(ints)) or 'unrelated'
+
+
+def expr_vars(e):
+    out = set()
+    if isinstance(e, dict):
+        if e.get('k') in ('var', 'arr'):
+            out.add(e['name'])
+        for v in e.values():
+            out |= expr_vars(v)
+    elif isinstance(e, list):
+        for v in e:
+            out |= expr_vars(v)
+    return out
 
 
 def earlier_definer(ix, sets, top, leaf, var):
@@ -687,22 +701,36 @@ def classify(ix, sets, miss):
         if inf['kind'] == 'elseif':
             return f'raw:elseif-arm:{role}'
         sibs = inf['sibs']
-        if any(s['s'] == 'assoc' for sb in sibs for s in flat([sb])) or any(ix.kind(i) == 'assoc' for i in (ix.path(u['bid'], node) or [])):
+        # read_after_write_vars compares symbols by name: a write through an ASSOCIATE name and a read of the
+        # selector variable (or the other way round) never meet
+        w_in_assoc = any(var in sets[s['id'] - 1]['d'] for sb in sibs[:inf['pos']] for a in flat([sb]) if a['s'] == 'assoc' for s in flat(a['body']))
+        r_in_assoc = any(ix.kind(i) == 'assoc' for i in (ix.path(inf['parent'], leaf) or [])[:-1])
+        in_assoc = any(ix.kind(i) == 'assoc' for i in (ix.path(u['bid'], node) or []))
+        if w_in_assoc or r_in_assoc or in_assoc:
             return f'raw:access-through-associate-name:{role}'
         seen_w = any(var in sets[s['id'] - 1]['d'] for sb in sibs[:inf['pos']] for s in flat([sb]))
         if not seen_w:
             callers = sorted({ix.nokill(s['id'], var, sets) for sb in sibs[:inf['pos']] for s in flat([sb]) if s['s'] == 'call' and any(a.get('name') == var for a in s['args'])})
             return f"raw:write-not-recorded:{'/'.join(callers) or 'other'}:{role}"
-        if var not in leafsets['u']:
+        # FindReads looks at leaf nodes only; SELECT CASE and WHERE constructs are leaf nodes of the IR
+        below = ix.path(inf['parent'], leaf) or [leaf]
+        vis = next((i for i in below if ix.kind(i) in ('select', 'where')), leaf)
+        if var not in sets[vis - 1]['u']:
+            if vis != leaf:
+                return f'raw:read-inside-{ix.kind(vis)}-not-in-its-uses:{role}'
             return f'raw:{lk}-read-not-recorded:{role}' if lk != 'call' else f'raw:call-arg-intent-{ix.call_intent(leaf, var)}:{role}'
-        # candidate cleared by a recorded definition between p and the read
+        # candidate cleared by a recorded definition between p and the read (branches of IF are merged by
+        # FindReads.visit_Conditional, everything else clears the candidate)
         for sb in sibs[inf['pos']:]:
-            for s in flat([sb]):
-                if s['id'] >= leaf and not (s['id'] == leaf):
+            for s_ in flat([sb]):
+                if s_['id'] >= vis:
                     break
-                if var in sets[s['id'] - 1]['d'] and s['s'] in ('assign', 'call', 'select', 'where') and s['id'] != leaf:
-                    chain = [ix.kind(i) for i in (ix.path(inf['parent'], s['id']) or [])][:-1]
-                    return f"raw:candidate-cleared-by:{'/'.join(chain + [ix.nokill(s['id'], var, sets)])}:{role}"
+                if var in sets[s_['id'] - 1]['d'] and s_['s'] in ('assign', 'call', 'select', 'where'):
+                    chain = [ix.kind(i) for i in (ix.path(inf['parent'], s_['id']) or [])][:-1]
+                    inner_if = [i for i in (ix.path(inf['parent'], s_['id']) or [])[:-1] if ix.kind(i) in ('if', 'elseif') and ix.path(i, vis) is None]
+                    if inner_if or any(c in ('select', 'where') for c in chain):
+                        continue
+                    return f"raw:candidate-cleared-by:{'/'.join(chain + [ix.nokill(s_['id'], var, sets)])}:{role}"
         return f'raw:unexplained:{ix.kind(node)}:{lk}:{role}'
     return f'{cl}:unknown'
 
